@@ -306,7 +306,11 @@ def check_string(s, rec=None, must_refuse=False, overridable_only=False, only_pl
 def guarded(s, rec, **kw):
     """check_string under the hang guard."""
     # CPU time, not wall-clock time (see vlib.prorun.time_limit)
+    import gc
+
     signal.signal(signal.SIGPROF, _on_alarm)
+    gc_was_on = gc.isenabled()
+    gc.disable()  # a full collection in a long-running shard must not count against the string
     signal.setitimer(signal.ITIMER_PROF, 2.0)
     try:
         return check_string(s, rec, **kw)
@@ -314,6 +318,8 @@ def guarded(s, rec, **kw):
         pass
     finally:
         signal.setitimer(signal.ITIMER_PROF, 0)
+        if gc_was_on:
+            gc.enable()
     # 2 s of CPU time were not enough.  A selector that really never finishes does so every
     # time; a one-off stall of a long-running shard (a full garbage collection over a large
     # heap, say) does not: decide on a second attempt with ten times the budget.
